@@ -76,6 +76,20 @@ impl Stats {
     }
 }
 
+/// Counters for the self-checks that `execute` performs (executors have no access to the generator's `Stats`):
+/// every executor records which wrapper self-checks it actually ran; `main` merges them into the
+/// statistics of the run as `selfcheck_<name>`, so they appear in the evidence file's distribution.
+static XCOUNTS: std::sync::Mutex<BTreeMap<&'static str, u64>> = std::sync::Mutex::new(BTreeMap::new());
+pub fn xcount(k: &'static str) {
+    xcount_add(k, 1)
+}
+pub fn xcount_add(k: &'static str, n: u64) {
+    *XCOUNTS.lock().unwrap_or_else(|e| e.into_inner()).entry(k).or_insert(0) += n;
+}
+pub fn xcounts() -> BTreeMap<&'static str, u64> {
+    XCOUNTS.lock().unwrap_or_else(|e| e.into_inner()).clone()
+}
+
 /// One property's side of the differential check.
 pub trait Prop: Sync {
     /// Generate the case lines for this run.
